@@ -19,6 +19,7 @@ import (
 	"strconv"
 	"strings"
 
+	"verifharness/hxcodec"
 	"verifharness/hxlib"
 
 	"google.golang.org/protobuf/types/known/wrapperspb"
@@ -53,6 +54,9 @@ type Case struct {
 	Off     int    `json:"off,omitempty"`     // str / bytes values are handed over as a sub-string / sub-slice starting at an address that is Off mod 16
 	Seed    uint64 `json:"seed,omitempty"`    // op "reuse": seed of the values
 	Windows []int  `json:"windows,omitempty"` // op "reuse": SetBody calls between two observations of ONE packet object
+	// legs2.go
+	N  int    `json:"n,omitempty"`  // ops "held" / "shared": packets of the stream
+	Rd string `json:"rd,omitempty"` // ops "held" / "shared": what the receiver reads from: buffer | bytes | bufio:<size>
 }
 
 type unsupportedT struct{ X int }
@@ -112,6 +116,8 @@ func goValue(k, v string) (val interface{}, ok bool) {
 	case "bytes":
 		b, ok := unhex(v)
 		return b, ok
+	case "nilbytes": // legs2.go: a typed nil ([]byte(nil)) — a byte body like any other, and empty
+		return []byte(nil), v == ""
 	}
 	return nil, false
 }
@@ -126,7 +132,7 @@ func unhex(s string) ([]byte, bool) {
 
 func kvText(k, v string) string {
 	switch k {
-	case "nil", "msg", "unsupported":
+	case "nil", "msg", "unsupported", "nilbytes":
 		return "k=" + k
 	}
 	return "k=" + k + " v=" + v
@@ -278,6 +284,9 @@ func (xorCrypt) Encrypt(src []byte) []byte {
 func (x xorCrypt) Decrypt(src []byte) []byte { return x.Encrypt(src) }
 
 func cryptPair(name string) (enc, dec cipher.BlockCryptor) {
+	if strings.HasPrefix(name, "x:") { // legs2.go: custom BlockCryptor implementations (hxcodec.XCrypt)
+		return hxcodec.NewXCrypt(name), hxcodec.NewXCrypt(name)
+	}
 	switch name {
 	case "xor":
 		return xorCrypt{}, xorCrypt{}
@@ -1054,6 +1063,10 @@ func main() {
 			runReuse(r, c)
 		case "clone":
 			runClone(r, c)
+		case "held", "shared":
+			runHeld(r, c)
+		case "sharedrefs":
+			runSharedRefs(r, c)
 		default:
 			one(r, c)
 		}
@@ -1064,6 +1077,7 @@ func main() {
 	}
 	if os.Getenv("HX_LEGS_ONLY") != "" { // development: the legs of search.go alone
 		legs(r)
+		legs2(r)
 		return
 	}
 	R := r.R
@@ -1266,7 +1280,8 @@ func main() {
 		one(r, Case{Op: "uvarint", V: h})
 		one(r, Case{Op: "varint", V: h})
 	}
-	legs(r) // search.go (after the generators, so that the smallest failing case of a kind is recorded first): cheap legs in every tier, the longer ones from thorough on, the rest with -search only
+	legs2(r) // legs2.go: second round (held decoded packets, custom cryptors, shared body / reference slices, word extremes, typed nil)
+	legs(r)  // search.go (after the generators, so that the smallest failing case of a kind is recorded first): cheap legs in every tier, the longer ones from thorough on, the rest with -search only
 }
 
 // randVarintish: byte strings shaped like varints — valid, truncated, over-long, overflowing.
